@@ -177,6 +177,43 @@ def gen_trees(rng, family, n, tier):
     return [t for t in out if is_expr(t) and not formats(t)]
 
 
+ATOMS = ["this['a']", "this['l'][-1]", "this['l'][1]", 'obj_', 'list_[0]', '3', '0', 'True', 'None', "'ab'", "b'x'"]
+BINSYMS = [b[0] for b in BIN] + ['in']
+
+
+def rand_text(rng, d):
+    """expression text in Python's grammar over the printed vocabulary, with arbitrary (also missing) parentheses"""
+    def atom(d):
+        r = rng.random()
+        if d == 0 or r < 0.45:
+            return rng.choice(ATOMS)
+        if r < 0.8:
+            return '(' + expr(d - 1) + ')'
+        if r < 0.9:
+            return rng.choice(['len_', 'sum_', 'min_', 'max_', 'abs_']) + '(' + expr(d - 1) + ')'
+        return atom(d - 1) + '[' + rng.choice(["'k'", '0', '-2', '1 + 1']) + ']'
+
+    def factor(d):
+        r = rng.random()
+        if r < 0.3:
+            return rng.choice(['-', '+', '- ', '+ ']) + factor(max(d - 1, 0))
+        a = atom(d)
+        if rng.random() < 0.25:
+            a += ' ** ' + factor(max(d - 1, 0))
+        return a
+
+    def expr(d):
+        parts = [factor(d)]
+        for _ in range(rng.choice([0, 1, 1, 2, 3])):
+            parts.append(rng.choice(BINSYMS))
+            parts.append(factor(d))
+        s = ' '.join(parts)
+        if rng.random() < 0.15:
+            s = 'not ' + s
+        return s
+    return expr(d)
+
+
 def run(tier, seed):
     acc = C.Acc('C11', tier, seed)
     rng = C.rng_for(seed, 'C11')
@@ -202,6 +239,25 @@ def run(tier, seed):
         for b in range(0, 256, 17):
             cases.append(dict(src=src, op='parse', data=bytes([b % 7, (b >> 4) % 5])))
 
+    # printing: the model's printer against tokenize(repr(e)), and the model of Python's grammar against ast.parse,
+    # on what repr prints and on free-form expression text (random parenthesisation, unary and comparison mixes)
+    pcases = []
+    for src in list(TREES):
+        pcases.append(dict(src=src, op='expr_print'))
+        try:
+            e = eval(src, dict(NS))
+        except Exception:
+            continue
+        if callable(e):
+            pcases.append(dict(src=repr(e), op='expr_read'))
+    seen = set()
+    for _ in range(1500 if tier == 'quick' else 40000):
+        t = rand_text(rng, rng.choice([1, 2, 2, 3, 3, 4]))
+        if t not in seen:
+            seen.add(t)
+            pcases.append(dict(src=t, op='expr_read'))
+    acc.corr(pcases, 'print')
+
     def proj(m, i):
         # foreign exception classes are compared as a class; values exactly
         f = lambda r: ('exc',) if r[0] == 'RErr' else r
@@ -213,8 +269,10 @@ def run(tier, seed):
              'depth 2..4 with len_/sum_/min_/max_/abs_ and item paths; contexts a in {-3..2} x b in {-2..3}. Oracle: expr(ctx) vs the same '
              'operator tree evaluated natively, and eval(repr(expr)) / eval(str(expr)) with the placeholders bound. distinct = (tree shape, outcome)',
         fragment='operator table and symbol table regenerated from expr.py and proved equal to the Python data model table (finite, kernel-checked)',
-        partial=['C11_print (pyparse (render e) denotes e for all trees) is not yet a theorem: repr faithfulness is decided by the '
-                 'exhaustive-skeleton oracle against the real Python parser'])
+        partial=['the printing theorem (PyExprFacts.C11_repr_denotes_the_expression) is about model/PyExpr.v: its printer is tied to repr() '
+                 'through tokenize and its grammar to CPython through ast.parse by correspondence on every run; float, container and label '
+                 'constants have no literal spelling in the model (inf/nan have none in Python) and stay with the oracle; '
+                 'BinExpr(operator.contains) is outside the operator table of the property and its spelling is refuted (print_contains_refuted)'])
 
 
 def replay(payload):
